@@ -44,7 +44,14 @@ def main():
         if rc != 0:
             print("cannot create worktree", out); return 2
         rc, out = sh(["git", "-C", wt, "apply", os.path.join(src, "patch.diff")])
-        meta["steps"]["apply"] = "ok" if rc == 0 else "FAILED: " + out[-500:]
+        if rc != 0:      # the tree has moved on (later fix: commits): try once more with fuzz before giving up
+            rc, out2 = sh("cd %s && patch -p1 --fuzz=3 --no-backup-if-mismatch < %s" % (wt, os.path.join(src, "patch.diff")))
+            if rc == 0:
+                out = "applied with fuzz"
+                sh("cd %s && find . -name '*.orig' -o -name '*.rej' | xargs rm -f" % wt)
+            else:
+                sh(["git", "-C", wt, "checkout", "--", "."])
+        meta["steps"]["apply"] = ("ok" if "fuzz" not in out else "ok (with fuzz)") if rc == 0 else "FAILED: " + out[-500:]
         if rc != 0:
             print(json.dumps(meta, indent=1)); return 1
         if ctest:
